@@ -11,8 +11,9 @@ from .. import common as C
 from .. import asmtext as A
 
 PROP = "C05"
+# "" = no CPU directive at all: the assembler's default (MSP430: one byte per address, little endian)
 CARRIERS = [("msp430", 1, False), ("68000", 1, True), ("avr8", 2, False), ("lc3", 2, True),
-            ("propeller", 4, False), ("ebpf", 8, False)]
+            ("propeller", 4, False), ("ebpf", 8, False), ("", 1, False)]
 
 
 def observe(rec, names):
@@ -72,7 +73,7 @@ def run(tier, seed):
         for cpu, bpa, big in cs:
             cid = "%d.%s" % (i, cpu)
             names = A.label_names(p)
-            src = A.render_prog(p, cpu, variant=i)
+            src = A.layout(A.render_prog(p, cpu, variant=i), i)
             meta[cid] = (i, cpu, bpa, big, names, src)
             cases.append((cid, "syms=%s imgmax=70000" % ";".join(names), src))
     obs = C.conform_parallel(vdir, "asm", cases, rd, "c05")
